@@ -930,3 +930,82 @@ Proof.
     + intros t Ht Ht2. assert (t = 0 \/ t = 1 \/ t = 2)%Z as [ -> | [ -> | -> ] ] by lia; reflexivity.
     + lia.
 Qed.
+
+(* ================= the reset of the maps (they persist on Data between calls) ================= *)
+Local Open Scope Z_scope.
+Lemma fold_reset_component : forall (n : Z) dimn (l0 : list Z),
+  let f := fun (l : list Z) idx => if idx <? n then cset l idx (-1) else l in
+  length (fold_left f (zseq (Z.of_nat dimn)) l0) = length l0 /\
+  forall j, (j < length l0)%nat ->
+    nth j (fold_left f (zseq (Z.of_nat dimn)) l0) 0 = if (Z.of_nat j <? Z.min (Z.of_nat dimn) n) then -1 else nth j l0 0.
+Proof.
+  intros n dimn l0 f. induction dimn as [|k IH].
+  - cbn. split; [reflexivity|]. intros j Hj. destruct (Z.ltb_spec (Z.of_nat j) (Z.min 0 n)); [lia|reflexivity].
+  - replace (Z.of_nat (S k)) with (Z.of_nat k + 1) by lia. rewrite zseq_succ by lia. rewrite fold_left_app. cbn [fold_left].
+    destruct IH as [IL IN]. set (l := fold_left f (zseq (Z.of_nat k)) l0) in *. unfold f.
+    destruct (Z.ltb_spec (Z.of_nat k) n) as [Hk|Hk].
+    + split; [rewrite cset_length; exact IL|]. intros j Hj.
+      change (nth j (cset l (Z.of_nat k) (-1)) 0) with (cgetd 0 (cset l (Z.of_nat k) (-1)) (Z.of_nat j)) at 1 || idtac.
+      assert (nth j (cset l (Z.of_nat k) (-1)) 0 = cgetd 0 (cset l (Z.of_nat k) (-1)) (Z.of_nat j)) as E by (unfold cgetd; rewrite Nat2Z.id; reflexivity).
+      rewrite E, cgetd_cset by lia.
+      destruct (Z.eqb_spec (Z.of_nat k) (Z.of_nat j)) as [Ekj|Nkj].
+      * replace (0 <=? Z.of_nat k) with true by lia. replace (Z.of_nat k <? Z.of_nat (length l)) with true by lia. cbn [andb].
+        destruct (Z.ltb_spec (Z.of_nat j) (Z.min (Z.of_nat k + 1) n)); [reflexivity|lia].
+      * cbn [andb]. unfold cgetd. rewrite Nat2Z.id. rewrite IN by exact Hj.
+        destruct (Z.ltb_spec (Z.of_nat j) (Z.min (Z.of_nat k) n)), (Z.ltb_spec (Z.of_nat j) (Z.min (Z.of_nat k + 1) n)); try reflexivity; lia.
+    + split; [exact IL|]. intros j Hj. rewrite IN by exact Hj.
+      destruct (Z.ltb_spec (Z.of_nat j) (Z.min (Z.of_nat k) n)), (Z.ltb_spec (Z.of_nat j) (Z.min (Z.of_nat k + 1) n)); try reflexivity; lia.
+Qed.
+
+Lemma reset_maps_components : forall dim nv nvp dc0 cd0,
+  reset_maps dim nv nvp dc0 cd0 =
+  (fold_left (fun l idx => if idx <? nv then cset l idx (-1) else l) (zseq dim) dc0,
+   fold_left (fun l idx => if idx <? nvp then cset l idx (-1) else l) (zseq dim) cd0).
+Proof.
+  intros dim nv nvp. unfold reset_maps. generalize (zseq dim). induction l; intros dc0 cd0; cbn [fold_left fst snd]; [reflexivity|apply IHl].
+Qed.
+
+(* launched over max(nv, nvmax_pad) the reset clears EVERY entry of both maps, whatever they held *)
+Theorem reset_maps_full : forall nv nvp dc0 cd0, 0 <= nv -> 0 <= nvp ->
+  length dc0 = Z.to_nat nv -> length cd0 = Z.to_nat nvp ->
+  reset_maps (reset_dim nv nvp) nv nvp dc0 cd0 = (repeat (-1) (Z.to_nat nv), repeat (-1) (Z.to_nat nvp)).
+Proof.
+  intros nv nvp dc0 cd0 Hnv Hnvp L1 L2. rewrite reset_maps_components. unfold reset_dim.
+  replace (Z.max nv nvp) with (Z.of_nat (Z.to_nat (Z.max nv nvp))) by lia.
+  destruct (fold_reset_component nv (Z.to_nat (Z.max nv nvp)) dc0) as [A1 A2].
+  destruct (fold_reset_component nvp (Z.to_nat (Z.max nv nvp)) cd0) as [B1 B2]. cbv zeta in *.
+  f_equal; apply (nth_ext _ _ 0 0); rewrite ?repeat_length; try lia.
+  - intros j Hj. rewrite A2 by lia. rewrite nth_repeat_lt by lia.
+    destruct (Z.ltb_spec (Z.of_nat j) (Z.min (Z.of_nat (Z.to_nat (Z.max nv nvp))) nv)); [reflexivity|lia].
+  - intros j Hj. rewrite B2 by lia. rewrite nth_repeat_lt by lia.
+    destruct (Z.ltb_spec (Z.of_nat j) (Z.min (Z.of_nat (Z.to_nat (Z.max nv nvp))) nvp)); [reflexivity|lia].
+Qed.
+
+(* hence update_active_dofs does not depend on what the maps held: it IS compact_dofs, and every
+   theorem above applies to a Data that is reused from step to step *)
+Theorem update_active_dofs_stateless : forall ntree adr num aw nvmax nv nvp ovf dc0 cd0, 0 <= nv -> 0 <= nvp ->
+  length dc0 = Z.to_nat nv -> length cd0 = Z.to_nat nvp ->
+  update_active_dofs (reset_dim nv nvp) ntree adr num aw nvmax nv nvp ovf dc0 cd0 = compact_dofs ntree adr num aw nvmax nv nvp ovf.
+Proof.
+  intros. unfold update_active_dofs. rewrite reset_maps_full by assumption. reflexivity.
+Qed.
+
+(* in particular (nv > nvmax_pad included): after update_active_dofs every dof of a tree that is not
+   awake maps to -1, whatever compacted id it held before *)
+Theorem sleeping_dofs_unmapped : forall ntree adr num aw nvmax nv nvp ovf dc0 cd0,
+  0 <= nvmax <= nvp -> 0 <= nv -> wf_trees ntree nv adr num ->
+  length dc0 = Z.to_nat nv -> length cd0 = Z.to_nat nvp ->
+  Z.of_nat (length (awake_dofs ntree adr num aw)) <= nvmax ->
+  forall d, 0 <= d < nv -> ~ awake_dof ntree adr num aw d ->
+  cget (dof_cdof (update_active_dofs (reset_dim nv nvp) ntree adr num aw nvmax nv nvp ovf dc0 cd0)) d = -1.
+Proof.
+  intros ntree adr num aw nvmax nv nvp ovf dc0 cd0 Hn Hnv WF L1 L2 Hfit d Hd Hna.
+  rewrite update_active_dofs_stateless by (assumption || lia).
+  destruct (compact_maps_inverse ntree nv nvmax nvp ovf adr num aw Hn WF Hfit) as (_ & _ & C & _). apply C; assumption.
+Qed.
+
+(* regression witness: launched over nvmax_pad only (nv = 20 > nvmax_pad = 16) a stale entry survives *)
+Example reset_over_nvmax_pad_only_keeps_stale_entry :
+  cget (dof_cdof (update_active_dofs 16 2 [0; 14] [14; 6] [0; 0] 12 20 16 0 (repeat 5 20) (repeat 7 16))) 18 = 5
+  /\ cget (dof_cdof (update_active_dofs (reset_dim 20 16) 2 [0; 14] [14; 6] [0; 0] 12 20 16 0 (repeat 5 20) (repeat 7 16))) 18 = -1.
+Proof. split; vm_compute; reflexivity. Qed.
